@@ -364,6 +364,13 @@ func runSess(scriptPath, outPath, stateIn, stateOut string, from int) {
 		emit("# %d %s", idx, line)
 		emit("t %d", nowRel())
 		switch tok[0] {
+		case "tz":
+			// the process's local time zone (the model knows no zones: nothing observable may depend on it)
+			if loc, err := time.LoadLocation(tok[1]); err == nil {
+				time.Local = loc
+			} else {
+				fatal("unknown time zone %q", tok[1])
+			}
 		case "codec":
 			h.st.codec = tok[1]
 		case "cfg":
